@@ -489,6 +489,10 @@ class Engine:
                     for i, (_, fty) in enumerate(vdef[2]):
                         c = v.field(self, vn, i, subst_generics(fty, v.edef, v.ty))
                         self._bind_elem(c.get(self), backing.child(vn).child(i))
+        elif isinstance(v, SymSeq):
+            # a vector nested in an element: the names a Vec<T> materialised from this backing would get (len leaf, buf array)
+            self.add_constraint(backing.child('len').leaf(self, z3.BitVecSort(64)) == v.len)
+            self.add_constraint(z3.Const(backing.child('buf').key() + '.arr', v.arr.sort()) == v.arr)
         elif v is None or isinstance(v, (Opaque, Ref, FnItem, ClosureV, StrV)):
             pass     # references / code pointers stored in a symbolic sequence are not tracked
         else:
